@@ -40,7 +40,7 @@ def main():
     rp = P.replay_tokens()
     if rp is not None:
         scenarios = [P.scenario_of_line(rp)] if rp and rp[0] == "srv" else []
-    outs, stats = P.run_scenarios(c, scenarios, P.monitor_c21, compare_c15_class=False)
+    outs, stats = P.run_scenarios(c, scenarios, P.monitor_c21, compare_c15_class=True)
 
     # ---- the daemon's counters -------------------------------------------------------------
     singles = [[g] for g in itertools.product((0, 1), range(5), range(4))]             # all 40 registrations
@@ -92,8 +92,6 @@ def main():
     c.assumptions += P.COMMON_ASSUMPTIONS + [
         "the daemon line that feeds `self.stats` to Server::handle (ntpd/src/daemon/server.rs) is read, not executed; the datagram-without-"
         "timestamp path registers (0,false,InternalError,Ignore) once through the same `register`",
-        "datagrams in C15's non-client/failed-authentication class are run and monitored but not compared with the model here "
-        "(%d scenarios; C15 owns them)" % stats["skipped_c15_class"],
     ]
     return c.finish()
 
@@ -101,6 +99,6 @@ def main():
 MANIFEST = {
     "claimed": False,
     "text": 'Theorems (Coq, closed) about the decision model of Server::handle, for every datagram summary, policy configuration, cache state and buffer outcome: exactly one ServerStatHandler::register call on every path incl. serialisation failure (C21_exactly_one), whose response kind is what was done: ProvideTime iff a time answer, Deny iff a DENY kiss, NTSNak iff a NAK, Ignore iff nothing sent (C21_kind_matches); the NTS flag is false for undecodable and for plain requests, true for every authenticating NTS request that is answered, and for a failing authenticator true when the NAK is sent (or could not be serialised) and false when policy answers DENY (C21_nts_flag). Daemon: after any sequence of registrations each of the eleven counters equals the number of registrations of its class mod 2^64 (C21_counters), every registration is in `received` and in exactly one outcome counter, NTS counters are sub-populations (C21_counters_partition); over any history of datagrams the class counts equal the numbers of time answers / DENY / NAK / unanswered datagrams (C21_history). Ties: Server::handle with a recording handler (policy grid, buffer-size stream, random); ServerStats::register on all single registrations, all pairs and random sequences.',
-    "note": "Trusted: Coq kernel+vm_compute; hand-written model coq/Model/Server.v (handle, register); decoder, answer construction and 'answer fits the buffer' are inputs of the model (see C15); the daemon line passing `&mut self.stats` to Server::handle and the no-timestamp path (register(0,false,InternalError,Ignore)) are read, not executed; response_send_errors is outside `register`. Reading (DESIGN 5): 'plain' = decoded without cookie, 'NTS request' = authenticates under a server key; a NAK that does not fit the buffer is registered InternalError/Ignore WITH the NTS flag. Datagrams of C15's non-client/failed-authentication class are monitored but not model-compared here. Print Assumptions: closed under the global context for all six theorems.",
+    "note": "Trusted: Coq kernel+vm_compute; hand-written model coq/Model/Server.v (handle, register); decoder, answer construction and 'answer fits the buffer' are inputs of the model (see C15); the daemon line passing `&mut self.stats` to Server::handle and the no-timestamp path (register(0,false,InternalError,Ignore)) are read, not executed; response_send_errors is outside `register`. Reading (DESIGN 5): 'plain' = decoded without cookie, 'NTS request' = authenticates under a server key; a NAK that does not fit the buffer is registered InternalError/Ignore WITH the NTS flag. Print Assumptions: closed under the global context for all six theorems.",
     "design_ref": "DESIGN.md 3 C21",
 }
